@@ -1,5 +1,6 @@
 import StepModel.LazyLemmas
 import StepModel.LazyScan
+import StepModel.LazyScanFile
 /-!
 # C10 — the lazy loader sees the same file as the eager reader
 
@@ -55,6 +56,66 @@ example :
     (∀ t ∈ ts, t.ok = true) ∧ seqOk ts = true ∧ innerOk 1 ts = true ∧ depthAfter 1 ts = 1 ∧
       refsOfToks ts = [12, 3] := by
   decide
+
+/-! ## whole data sections -/
+
+theorem mem_le_sum {α} (l : List α) (g : α → Nat) (a : α) (h : a ∈ l) : g a ≤ (l.map g).sum := by
+  induction l with
+  | nil => cases h
+  | cons x t ih =>
+    simp only [List.map_cons, List.sum_cons]
+    rcases List.mem_cons.mp h with h1 | h1
+    · subst h1; omega
+    · have := ih h1; omega
+
+theorem length_le_sum {α} (l : List α) (g : α → Nat) (h : ∀ a ∈ l, 1 ≤ g a) : l.length ≤ (l.map g).sum := by
+  induction l with
+  | nil => simp
+  | cons x t ih =>
+    simp only [List.map_cons, List.sum_cons, List.length_cons]
+    have := h x (by simp)
+    have := ih (fun a ha => h a (List.mem_cons_of_mem _ ha))
+    omega
+
+/-- **The scanner on a whole data section.**  `is` = any list of instances, each written as
+    ws `#` ws digits ws `=` ws KEYWORD blanks `(` tokens `)` ws `;` (keyword empty for an externally mapped instance; tokens as in
+    `C10_scan_body`: strings and comments may contain `#`, `(`, `)`, `;`, `=`), followed by ws `ENDSEC` ws `;` and anything.
+    `scan` (the model of the `lazyP21DataSectionReader` constructor: `readInstanceNumber`, `getDelimitedKeyword` with the regenerated
+    delimiters, `seekInstanceEnd`, the ENDSEC test) returns exactly these instances — id, keyword, references in order — in file
+    order, and accepts the section.  No bound on the number or size of instances. -/
+theorem C10_scan_file (is : List RInst) (hok : ∀ i ∈ is, i.Ok) (ws ws' rest : Bytes)
+    (hws : ws.all isSpace = true) (hws' : ws'.all isSpace = true) :
+    scan (renderAll is (endsec ws ws' rest)) = .ok (is.map RInst.entry, true) := by
+  unfold scan
+  have hL := renderAll_length is (endsec ws ws' rest)
+  have h1 : ∀ i ∈ is, 1 ≤ (i.render []).length := by
+    intro i _; simp [RInst.render]; omega
+  have hn := length_le_sum is (fun i => (i.render []).length) h1
+  have hfu : ∀ i ∈ is, (i.render []).length + 3 ≤ 4 * (renderAll is (endsec ws ws' rest)).length + 16 := by
+    intro i hi
+    have := mem_le_sum is (fun i => (i.render []).length) i hi
+    omega
+  have htail := nextInstance_endsec ws ws' rest hws (4 * (renderAll is (endsec ws ws' rest)).length + 15)
+  have hse := sectionEnd_endsec ws ws' rest hws hws' (4 * (renderAll is (endsec ws ws' rest)).length + 15)
+  rw [scanLoop_ok _ _ htail is hok hfu _ (by omega) [], hse]
+  simp
+
+/-- **index = what the file denotes**: ids and keywords (and mentions) of the lazy index are those written in the file -/
+theorem C10_index (is : List RInst) (hok : ∀ i ∈ is, i.Ok) (ws ws' rest : Bytes)
+    (hws : ws.all isSpace = true) (hws' : ws'.all isSpace = true) :
+    ∃ es, scan (renderAll is (endsec ws ws' rest)) = .ok (es, true) ∧
+      (build es).entries = is.map RInst.entry ∧
+      ∀ k, (build es).fwd.find k = fwdSpec (is.map RInst.entry) k :=
+  ⟨_, C10_scan_file is hok ws ws' rest hws hws', by simp [build, foldl_addLazy_entries],
+    fun k => by simp [build, foldl_addLazy_fwd, MM.find]⟩
+
+/-- non-vacuity: ` #12 = ND ('a''#(;',#3)` newline `;` is a well-formed written instance with entry (12, ND, [3]) -/
+example :
+    let i : RInst := ⟨[' '], [], ['1', '2'], [' '], [' '], ['N', 'D'], 1,
+      [.str [.plain 'a', .quote, .plain '#', .plain '(', .plain ';'], .other ',', .ref ['3']], ['\n']⟩
+    i.Ok ∧ i.entry = ⟨12, ['N', 'D'], [3]⟩ := by
+  refine ⟨?_, by decide⟩
+  constructor <;> decide
 
 /-! ## the index tables -/
 
